@@ -8,6 +8,8 @@ import GocoinV.Proofs.C19Hist
 namespace GocoinV.Proofs.C19
 open GocoinV GocoinV.Qdb GocoinV.QdbSpec
 
+variable {eg : Bool}
+
 /-- the non-volatile store that shadows a volatile one: same fields, the changed keys `P` pending -/
 def ghost (db : DB) (P : List Key) : DB := { db with volatile := false, pending := P }
 
@@ -50,20 +52,20 @@ theorem other_noSync {a b : DB} (h : other a = other b) : a.noSync = b.noSync :=
   simp only [Prod.mk.injEq] at h
   exact h.2.2.2.2.2.2.2.2.2.2
 
-theorem openDB_noSync (F : FS) (vol load : Bool) (opts : Opts) : (openDB F vol load opts).noSync = false := by
-  have h1 : (loaddat { fs := F, volatile := vol, opts := opts }).1.noSync = false := by
+theorem openDB_noSync (F : FS) (vol load : Bool) (opts : Opts) : (openDB F vol load opts eg).noSync = false := by
+  have h1 : (loaddat { fs := F, volatile := vol, opts := opts, eager := eg }).1.noSync = false := by
     unfold loaddat
     cases hp : pickIdx F with
-    | none => simp only [show ({ fs := F, volatile := vol, opts := opts } : DB).fs = F from rfl, hp]
+    | none => simp only [show ({ fs := F, volatile := vol, opts := opts, eager := eg } : DB).fs = F from rfl, hp]
     | some t =>
       obtain ⟨i, sv, d⟩ := t
-      simp only [show ({ fs := F, volatile := vol, opts := opts } : DB).fs = F from rfl, hp]
+      simp only [show ({ fs := F, volatile := vol, opts := opts, eager := eg } : DB).fs = F from rfl, hp]
       rw [other_noSync (memputAll_other _ _).1]
       rfl
-  generalize (loaddat { fs := F, volatile := vol, opts := opts }).1 = a at h1
-  have hopen : (openDB F vol load opts).noSync =
-      (loadlog (loaddat { fs := F, volatile := vol, opts := opts }).1
-        (loaddat { fs := F, volatile := vol, opts := opts }).2).1.noSync := by
+  generalize (loaddat { fs := F, volatile := vol, opts := opts, eager := eg }).1 = a at h1
+  have hopen : (openDB F vol load opts eg).noSync =
+      (loadlog (loaddat { fs := F, volatile := vol, opts := opts, eager := eg }).1
+        (loaddat { fs := F, volatile := vol, opts := opts, eager := eg }).2).1.noSync := by
     unfold openDB openIndex
     have hc : ∀ (b : DB) (u : List Nat), (cleanupold b u).noSync = b.noSync := by
       intro b u
@@ -92,32 +94,32 @@ theorem openDB_noSync (F : FS) (vol load : Bool) (opts : Opts) : (openDB F vol l
   apply this
   unfold loaddat
   cases hp : pickIdx F with
-  | none => simp only [show ({ fs := F, volatile := vol, opts := opts } : DB).fs = F from rfl, hp]
+  | none => simp only [show ({ fs := F, volatile := vol, opts := opts, eager := eg } : DB).fs = F from rfl, hp]
   | some t =>
     obtain ⟨i, sv, d⟩ := t
-    simp only [show ({ fs := F, volatile := vol, opts := opts } : DB).fs = F from rfl, hp]
+    simp only [show ({ fs := F, volatile := vol, opts := opts, eager := eg } : DB).fs = F from rfl, hp]
     rw [other_noSync (memputAll_other _ _).1]
     rfl
 
 /-- NewDBExt(volatile, LoadData) on an openable directory: the volatile invariant, nothing changed yet, every key
     has its disk value -/
-theorem open_vinv (F : FS) (opts : Opts) (h : OpenOK F)
-    (hmax : (openIndex { fs := F, volatile := true, opts := opts }).maxSeq + 1 < 2^32) :
-    VInv (openDB F true true opts) ∧ (openDB F true true opts).noSync = false ∧
-    ∀ k, vals (openDB F true true opts) k = diskValue F k := by
+theorem open_vinv (F : FS) (opts : Opts) (h : OpenOK eg F)
+    (hmax : (openIndex { fs := F, volatile := true, opts := opts, eager := eg }).maxSeq + 1 < 2^32) :
+    VInv (openDB F true true opts eg) ∧ (openDB F true true opts eg).noSync = false ∧
+    ∀ k, vals (openDB F true true opts eg) k = diskValue F k := by
   refine ⟨?_, openDB_noSync F true true opts, fun k => by
     rw [vals_eq]; exact (open_readable F h.readable true opts).2 k⟩
-  have key : ∀ (F' : FS) (S : OpenState F' true (openIndex { fs := F, volatile := true, opts := opts }))
+  have key : ∀ (F' : FS) (S : OpenState F' true (openIndex { fs := F, volatile := true, opts := opts, eager := eg }))
       (E : List LogEntry) (hE : ∀ e ∈ E, EntryFits e) (hlog : LogState F' (snapVer F') E) (hsv : snapVer F' < 2^32)
-      (hR : DirReadable F'), VInv (openDB F true true opts) := by
+      (hR : DirReadable eg F'), VInv (openDB F true true opts eg) := by
     intro F' S E hE hlog hsv hR
-    generalize hX : openIndex { fs := F, volatile := true, opts := opts } = X at S hmax
+    generalize hX : openIndex { fs := F, volatile := true, opts := opts, eager := eg } = X at S hmax
     have S0 : OpenState F' false { X with volatile := false } :=
       ⟨S.index, S.failed, S.pending, S.datOpen, rfl, S.verSeq, S.log, S.logOpen, S.pick, S.free, S.otherSlot,
        S.maxSeq, S.dats⟩
     obtain ⟨_, h3⟩ := inv3_of_openState F' _ S0 E hE hlog hsv hR hmax
     have hload := loadAll_of_openState F' true X S hR
-    have hopen : openDB F true true opts =
+    have hopen : openDB F true true opts eg =
         { X with index := mapV (loadedRec X.fs) (diskIndex F'), dataSeq := u32 (X.maxSeq + 1) } := by
       unfold openDB
       simp only [↓reduceIte]
@@ -126,7 +128,7 @@ theorem open_vinv (F : FS) (opts : Opts) (h : OpenOK F)
     refine ⟨S.volatile, X.pending, h3, fun _ => S.pending⟩
   rcases h.log with ⟨E, hE, hlog⟩ | hd
   · exact key F (open_state F true opts E hE hlog h.ver) E hE hlog h.ver h.readable
-  · have hR : DirReadable (noLog F) := by
+  · have hR : DirReadable eg (noLog F) := by
       intro kr hkr
       rw [diskIndex_noLog F hd] at hkr
       exact h.readable kr hkr
@@ -153,7 +155,7 @@ theorem ghost_get (db : DB) (hc : Cached db) (P : List Key) (k : Key) :
 
 /-- one operation (not a reopen) on an open volatile store: the invariant stays, the values follow the map, and no
     file operation happens -/
-theorem vstep_vinv (db : DB) (h : VInv db) (op : Op) (ok : OpOK op) (fits : OpFits db op) :
+theorem vstep_vinv (db : DB) (h : VInv db) (op : Op) (ok : OpOK eg op) (fits : OpFits db op) :
     VInv (step db op) ∧ (∀ k, vals (step db op) k = vstep (vals db) op k) ∧
     (step db op).effs = db.effs ∧ (step db op).fs = db.fs := by
   obtain ⟨P, h3, hP⟩ := h.gh
@@ -374,7 +376,7 @@ theorem vstep_vinv (db : DB) (h : VInv db) (op : Op) (ok : OpOK op) (fits : OpFi
 /-- what Close leaves, in a form shared by both modes -/
 structure Closed (db : DB) : Prop where
   failed : (close db).failed = none
-  ok : OpenOK (close db).fs
+  ok : OpenOK eg (close db).fs
   vals : ∀ k, diskValue (close db).fs k = vals db k
   atomic : ∃ es, (close db).effs = db.effs ++ es ∧ (close db).fs = db.fs.applyAll (es.map (·.2)) ∧
     Atomic db.fs (es.map (·.2)) (C19.vals db)
@@ -428,7 +430,7 @@ theorem vclose (db : DB) (h : VInv db) (hsm : 4 + (valsOf db.index).flatten.leng
     obtain ⟨es', he1, he2⟩ := replays_defrag db
     have hes : es' = es := List.append_cancel_left (he1.symm.trans he)
     rw [hes] at he2
-    have hok : OpenOK (defrag db).fs := by
+    have hok : OpenOK eg (defrag db).fs := by
       have := (hA (es.map (·.2)).length).1
       rw [List.take_length, ← he2] at this
       exact this
@@ -444,39 +446,39 @@ theorem vclose (db : DB) (h : VInv db) (hsm : 4 + (valsOf db.index).flatten.leng
 /-- NewDBExt (either mode, LoadData) after a Close: the invariant of the new mode, the same values, and every crash
     point of Close + NewDBExt is all-old or all-new -/
 theorem reopen_from (db : DB) (c : Closed db) (vol : Bool) (opts : Opts)
-    (hmax : (openIndex { fs := (close db).fs, volatile := vol, opts := opts }).maxSeq + 1 < 2^32) :
+    (hmax : (openIndex { fs := (close db).fs, volatile := vol, opts := opts, eager := db.eager }).maxSeq + 1 < 2^32) :
     ((vol = false ∧ Inv3 (step db (.reopen vol true opts))) ∨ (vol = true ∧ VInv (step db (.reopen vol true opts)))) ∧
     (∀ k, vals (step db (.reopen vol true opts)) k = vals db k) ∧
     (∀ k, diskValue (step db (.reopen vol true opts)).fs k = vals db k) ∧
     ∃ es, (step db (.reopen vol true opts)).effs = db.effs ++ es ∧
       Atomic db.fs (es.map (·.2)) (vals db) := by
   have hstep : step db (.reopen vol true opts) =
-      { openDB (close db).fs vol true opts with
-        effs := (close db).effs ++ (openDB (close db).fs vol true opts).effs } := by
+      { openDB (close db).fs vol true opts eg with
+        effs := (close db).effs ++ (openDB (close db).fs vol true opts eg).effs } := by
     show (match (close db).failed with
       | some _ => close db
-      | none => { openDB (close db).fs vol true opts with
-                  effs := (close db).effs ++ (openDB (close db).fs vol true opts).effs }) = _
+      | none => { openDB (close db).fs vol true opts eg with
+                  effs := (close db).effs ++ (openDB (close db).fs vol true opts eg).effs }) = _
     rw [c.failed]
   obtain ⟨es1, x1, y1, z1⟩ := c.atomic
-  have hval : ∀ k, vals (openDB (close db).fs vol true opts) k = vals db k := by
+  have hval : ∀ k, vals (openDB (close db).fs vol true opts eg) k = vals db k := by
     intro k
     rw [vals_eq, (open_readable _ c.ok.readable vol opts).2 k]
     exact c.vals k
   have hT : ∀ n, Trim (close db).fs ((close db).fs.applyAll
-      (((openDB (close db).fs vol true opts).effs.map (·.2)).take n)) := fun n =>
+      (((openDB (close db).fs vol true opts eg).effs.map (·.2)).take n)) := fun n =>
     (Trim.refl (close db).fs).applyAll _ (fun e he => by
       obtain ⟨x, hx, rfl⟩ := List.mem_map.mp (List.mem_of_mem_take he)
       exact open_effs_trim _ _ _ _ x hx)
   rw [hstep]
-  refine ⟨?_, hval, fun k => ?_, es1 ++ (openDB (close db).fs vol true opts).effs,
+  refine ⟨?_, hval, fun k => ?_, es1 ++ (openDB (close db).fs vol true opts eg).effs,
     by show (close db).effs ++ _ = _; rw [x1, List.append_assoc], ?_⟩
   · cases vol with
     | false => exact Or.inl ⟨rfl, inv3_effs _ (open_inv3g _ opts c.ok hmax).1 _⟩
     | true => exact Or.inr ⟨rfl, vinv_effs (open_vinv _ opts c.ok hmax).1 _⟩
-  · show diskValue (openDB (close db).fs vol true opts).fs k = _
+  · show diskValue (openDB (close db).fs vol true opts eg).fs k = _
     rw [openDB_replays]
-    have T := hT ((openDB (close db).fs vol true opts).effs.map (·.2)).length
+    have T := hT ((openDB (close db).fs vol true opts eg).effs.map (·.2)).length
     rw [List.take_length] at T
     rw [(T.ok c.ok).2 k]
     exact c.vals k
@@ -509,14 +511,14 @@ theorem SInv.nodup {db : DB} (h : SInv db) : (Keys db.index).Nodup := by
     exact h3.inv.nodup
 
 /-- operations of the sub-language, both modes: no NO_CACHE flag; Close + NewDBExt(any mode, LoadData, any options) -/
-def OpOK3 : Op → Prop
+def OpOK3 (e : Bool) : Op → Prop
   | .reopen _ load _ => load = true
-  | op => OpOK op
+  | op => OpOK eg op
 
 /-- side conditions of one operation, both modes -/
 def OpFits3 (db : DB) : Op → Prop
   | .reopen vol _ opts => SizeOK db ∧
-      (openIndex { fs := (close db).fs, volatile := vol, opts := opts }).maxSeq + 1 < 2^32
+      (openIndex { fs := (close db).fs, volatile := vol, opts := opts, eager := db.eager }).maxSeq + 1 < 2^32
   | op => OpFits db op
 
 /-- operations after which everything written so far must be durable: Close + reopen in both modes; Sync and
@@ -542,9 +544,9 @@ structure StepOK (db : DB) (op : Op) : Prop where
         (∀ k, diskValue (step db op).fs k = C19.vals (step db op) k)
   must : mustSyncV db.volatile op = true → ∀ k, diskValue (step db op).fs k = C19.vals (step db op) k
 
-theorem stepOK_nv (db : DB) (h : Inv3 db) (op : Op) (hnr : ∀ a b c, op ≠ .reopen a b c) (ok : OpOK op)
+theorem stepOK_nv (db : DB) (h : Inv3 db) (op : Op) (hnr : ∀ a b c, op ≠ .reopen a b c) (ok : OpOK eg op)
     (fits : OpFits db op) (hd : DFits (preSync db op)) : StepOK db op := by
-  have ok2 : OpOK2 op := by
+  have ok2 : OpOK2 eg op := by
     cases op <;> first | exact ok | exact absurd rfl (hnr _ _ _)
   have fits2 : OpFits2 db op := by
     cases op <;> first | exact fits | exact absurd rfl (hnr _ _ _)
@@ -570,7 +572,7 @@ theorem stepOK_nv (db : DB) (h : Inv3 db) (op : Op) (hnr : ∀ a b c, op ≠ .re
     | noSync => simp [mustSyncV] at hms
   exact diskValue_of_inv _ h1.inv (mustSync_pending db h op ok2 fits2 hms') k
 
-theorem stepOK_v (db : DB) (h : VInv db) (op : Op) (hnr : ∀ a b c, op ≠ .reopen a b c) (ok : OpOK op)
+theorem stepOK_v (db : DB) (h : VInv db) (op : Op) (hnr : ∀ a b c, op ≠ .reopen a b c) (ok : OpOK eg op)
     (fits : OpFits db op) : StepOK db op := by
   obtain ⟨h1, hv, he, hf⟩ := vstep_vinv db h op ok fits
   obtain ⟨P, h3, _⟩ := h.gh
@@ -592,7 +594,7 @@ theorem stepOK_v (db : DB) (h : VInv db) (op : Op) (hnr : ∀ a b c, op ≠ .reo
   | noSync => simp [mustSyncV] at hms
 
 theorem stepOK_reopen (db : DB) (c : Closed db) (vol : Bool) (opts : Opts)
-    (hmax : (openIndex { fs := (close db).fs, volatile := vol, opts := opts }).maxSeq + 1 < 2^32) :
+    (hmax : (openIndex { fs := (close db).fs, volatile := vol, opts := opts, eager := db.eager }).maxSeq + 1 < 2^32) :
     StepOK db (.reopen vol true opts) := by
   obtain ⟨hi, hv, hdv, es, he, hA⟩ := reopen_from db c vol opts hmax
   have hvf : ∀ k, vals (step db (.reopen vol true opts)) k = vstep (vals db) (.reopen vol true opts) k := hv
@@ -607,7 +609,7 @@ theorem stepOK_reopen (db : DB) (c : Closed db) (vol : Bool) (opts : Opts)
     · exact h.vol
 
 /-- every operation of the sub-language, in either mode -/
-theorem stepOK (db : DB) (h : SInv db) (op : Op) (ok : OpOK3 op) (fits : OpFits3 db op)
+theorem stepOK (db : DB) (h : SInv db) (op : Op) (ok : OpOK3 eg op) (fits : OpFits3 db op)
     (hd : DFits (preSync db op)) : StepOK db op := by
   rcases h with h | h
   · cases op with
@@ -645,8 +647,8 @@ theorem stepOK (db : DB) (h : SInv db) (op : Op) (ok : OpOK3 op) (fits : OpFits3
     `d` the durable one (what a reopen would find). An operation changes `m` as on a plain map (`vstep`); the durable
     map either stays or becomes the complete new in-memory map — it MUST become it at Close + reopen and, on a
     non-volatile store, at Sync and Defrag(true) (`mustSyncV`). A crash inside an operation loses the in-memory map:
-    the store continues (non-volatile) with the durable map from before the operation or with the complete map
-    after it, never a mixture, and that is then durable. `DurOK vol m d H m' d'`: `H` can lead from `(m, d)` to
+    the store continues (in the mode the recovery chose) with the durable map from before the operation or with the
+    complete map after it, never a mixture, and that is then durable. `DurOK vol m d H m' d'`: `H` can lead from `(m, d)` to
     `(m', d')`. -/
 def DurOK : Bool → (Key → Option Bytes) → (Key → Option Bytes) → List HItem →
     (Key → Option Bytes) → (Key → Option Bytes) → Prop
@@ -654,10 +656,10 @@ def DurOK : Bool → (Key → Option Bytes) → (Key → Option Bytes) → List 
   | vol, m, d, .op o :: t, m', d' =>
       DurOK (modeAfter vol o) (vstep m o) (vstep m o) t m' d' ∨
       (mustSyncV vol o = false ∧ DurOK (modeAfter vol o) (vstep m o) d t m' d')
-  | _, m, d, .crash o _ _ _ :: t, m', d' =>
-      DurOK false d d t m' d' ∨ DurOK false (vstep m o) (vstep m o) t m' d'
+  | _, m, d, .crash o _ _ vol _ :: t, m', d' =>
+      DurOK vol d d t m' d' ∨ DurOK vol (vstep m o) (vstep m o) t m' d'
 
-def HOK (i : HItem) : Prop := OpOK3 (itemOp i)
+def HOK (e : Bool) (i : HItem) : Prop := OpOK3 eg (itemOp i)
 
 /-- side conditions along a history: those of every operation (`OpFits3`), the bounds of the crash analysis
     (`DFits`: data-file numbers do not wrap, index snapshot at most the 1 MiB bufio buffer) and, for every recovery,
@@ -665,9 +667,9 @@ def HOK (i : HItem) : Prop := OpOK3 (itemOp i)
 def HFits : DB → List HItem → Prop
   | _, [] => True
   | db, .op o :: t => OpFits3 db o ∧ DFits (preSync db o) ∧ HFits (step db o) t
-  | db, .crash o n ms opts :: t => OpFits3 db o ∧ DFits (preSync db o) ∧
-      (openIndex { fs := recrash opts (crashDir db o n) ms, volatile := false, opts := opts }).maxSeq + 1 < 2^32 ∧
-      HFits (hstep db (.crash o n ms opts)) t
+  | db, .crash o n ms vol opts :: t => OpFits3 db o ∧ DFits (preSync db o) ∧
+      (openIndex { fs := recrash opts (crashDir db o n) ms, volatile := vol, opts := opts, eager := db.eager }).maxSeq + 1 < 2^32 ∧
+      HFits (hstep db (.crash o n ms vol opts)) t
 
 /-- Under the specification, every value the store holds at the end (in memory or durably) was held at the start or
     was written by a Put / PutExt of the history (possibly the one the process died in). -/
@@ -700,7 +702,7 @@ theorem durOK_origin (H : List HItem) (vol : Bool) (m d m' d' : Key → Option B
         · exact here o rfl r
         · exact Or.inr (Or.inl r)
         · exact Or.inr (Or.inr (lift r))
-    | crash o n ms opts =>
+    | crash o n ms vol opts =>
       rcases h with h | h
       · rcases ih _ _ _ h with r | r | r
         · exact Or.inr (Or.inl r)
@@ -713,7 +715,7 @@ theorem durOK_origin (H : List HItem) (vol : Bool) (m d m' d' : Key → Option B
 
 /-- EVERY history of operations (both modes) and crashes (anywhere inside any operation, and inside any number of
     recovery attempts) keeps the invariants and follows the durable-map specification. -/
-theorem hrun_dur (H : List HItem) (db : DB) (h : SInv db) (ok : ∀ i ∈ H, HOK i) (fits : HFits db H) :
+theorem hrun_dur (H : List HItem) (db : DB) (h : SInv db) (ok : ∀ i ∈ H, HOK eg i) (fits : HFits db H) :
     SInv (hrun db H) ∧
     DurOK db.volatile (vals db) (diskValue db.fs) H (vals (hrun db H)) (diskValue (hrun db H).fs) := by
   induction H generalizing db with
@@ -721,7 +723,7 @@ theorem hrun_dur (H : List HItem) (db : DB) (h : SInv db) (ok : ∀ i ∈ H, HOK
   | cons i t ih =>
     cases i with
     | op o =>
-      have oko : OpOK3 o := ok (.op o) List.mem_cons_self
+      have oko : OpOK3 eg o := ok (.op o) List.mem_cons_self
       obtain ⟨f1, f2, f3⟩ := fits
       have S := stepOK db h o oko f1 f2
       have hv' : vals (step db o) = vstep (vals db) o := funext S.vals
@@ -746,8 +748,8 @@ theorem hrun_dur (H : List HItem) (db : DB) (h : SInv db) (ok : ∀ i ∈ H, HOK
           rw [this, hv'] at i2
           exact i2
         · exact Or.inl (hnew hn)
-    | crash o n ms opts =>
-      have oko : OpOK3 o := ok (.crash o n ms opts) List.mem_cons_self
+    | crash o n ms vol opts =>
+      have oko : OpOK3 eg o := ok (.crash o n ms vol opts) List.mem_cons_self
       obtain ⟨f1, f2, f3, f4⟩ := fits
       have S := stepOK db h o oko f1 f2
       obtain ⟨es, e1, A⟩ := S.atomic
@@ -757,28 +759,38 @@ theorem hrun_dur (H : List HItem) (db : DB) (h : SInv db) (ok : ∀ i ∈ H, HOK
       obtain ⟨o1, v1⟩ := A n
       rw [← hcd] at o1 v1
       obtain ⟨o2, v2⟩ := recrash_ok opts ms _ o1
-      obtain ⟨h3, hp⟩ := open_inv3g _ opts o2 f3
-      have hval : ∀ k, vals (hstep db (.crash o n ms opts)) k = diskValue (recrash opts (crashDir db o n) ms) k :=
-        fun k => open_vals _ opts o2 k
-      have hdur : ∀ k, diskValue (hstep db (.crash o n ms opts)).fs k = vals (hstep db (.crash o n ms opts)) k :=
-        fun k => diskValue_of_inv _ h3.inv hp k
-      obtain ⟨i1, i2⟩ := ih (hstep db (.crash o n ms opts)) (Or.inl h3)
+      -- the recovered store, in the mode the recovery chose
+      have hrec : SInv (hstep db (.crash o n ms vol opts)) ∧ (hstep db (.crash o n ms vol opts)).volatile = vol ∧
+          (∀ k, vals (hstep db (.crash o n ms vol opts)) k = diskValue (recrash opts (crashDir db o n) ms) k) ∧
+          (∀ k, diskValue (hstep db (.crash o n ms vol opts)).fs k = vals (hstep db (.crash o n ms vol opts)) k) := by
+        cases vol with
+        | false =>
+          obtain ⟨h3, hp⟩ := open_inv3g _ opts o2 f3
+          exact ⟨Or.inl h3, h3.inv.nv, fun k => open_vals _ opts o2 k, fun k => diskValue_of_inv _ h3.inv hp k⟩
+        | true =>
+          obtain ⟨hV, hns, hvv⟩ := open_vinv _ opts o2 f3
+          obtain ⟨P, h3, hP⟩ := hV.gh
+          have hP0 : P = [] := hP hns
+          subst hP0
+          exact ⟨Or.inr hV, hV.vol, hvv, fun k => diskValue_of_inv (ghost _ []) h3.inv rfl k⟩
+      obtain ⟨hsi, hmode, hval, hdur⟩ := hrec
+      obtain ⟨i1, i2⟩ := ih (hstep db (.crash o n ms vol opts)) hsi
         (fun x hx => ok x (List.mem_cons_of_mem _ hx)) f4
       refine ⟨i1, ?_⟩
-      have hmode : (hstep db (.crash o n ms opts)).volatile = false := h3.inv.nv
       rw [hmode] at i2
-      show DurOK false (diskValue db.fs) (diskValue db.fs) t _ _ ∨
-        DurOK false (vstep (vals db) o) (vstep (vals db) o) t _ _
-      have hd' : diskValue (hstep db (.crash o n ms opts)).fs = vals (hstep db (.crash o n ms opts)) := funext hdur
+      show DurOK vol (diskValue db.fs) (diskValue db.fs) t _ _ ∨
+        DurOK vol (vstep (vals db) o) (vstep (vals db) o) t _ _
+      have hd' : diskValue (hstep db (.crash o n ms vol opts)).fs = vals (hstep db (.crash o n ms vol opts)) :=
+        funext hdur
       rw [hd'] at i2
       rcases v1 with hold | hn
       · left
-        have : vals (hstep db (.crash o n ms opts)) = diskValue db.fs :=
+        have : vals (hstep db (.crash o n ms vol opts)) = diskValue db.fs :=
           funext (fun k => (hval k).trans ((v2 k).trans (hold k)))
         rw [this] at i2
         exact i2
       · right
-        have : vals (hstep db (.crash o n ms opts)) = vstep (vals db) o :=
+        have : vals (hstep db (.crash o n ms vol opts)) = vstep (vals db) o :=
           funext (fun k => (hval k).trans ((v2 k).trans ((hn k).trans (S.vals k))))
         rw [this] at i2
         exact i2
